@@ -1312,8 +1312,13 @@ class RecordSerializer(TypeSerializer[T, np.void]):
         self._field_serializers = field_serializers
 
     def is_trivially_serializable(self) -> bool:
+        # The aligned dtype must not contain padding, otherwise its memory is
+        # not the concatenation of the serialized fields
         return all(
             serializer.is_trivially_serializable()
+            for _, serializer in self._field_serializers
+        ) and self._dtype.itemsize == sum(
+            serializer.overall_dtype().itemsize
             for _, serializer in self._field_serializers
         )
 
